@@ -26,7 +26,7 @@ RUNS = [
     ('elnedyn22', ['tier-0/mini-protein1_betasheet', 'tier-1/villin', 'tier-1/3i40', 'tier-1/hst5']),
 ]
 MAX_MATCH_NODES = 400      # reference matcher: molecules above this size are skipped (counted)
-MAX_APPLY_NODES = 180      # whole DoLinks run through the model
+MAX_APPLY_NODES = 400      # whole DoLinks run through the model
 
 
 class Abort(Exception):
